@@ -233,6 +233,71 @@ def jobs_for(tier):
     return jobs
 
 
+def make_eigen(cfg):
+    """Eigendecomposition solver, with and without the stability option, on a PSD input: X = Q diag((lambda_i(A) + eps)^(-1/r)) Q^T, i.e. the matrix function
+    (A + eps I)^(-1/r) of whatever orthonormal eigenbasis LAPACK returns (eigh is a stub: ascending eigenvalues bounded below by 0, resp. by eps when the ridge
+    is added before the decomposition)."""
+    from fractions import Fraction
+
+    n, root, enh = cfg["n"], Fraction(cfg["root"]), cfg["enhance"]
+    opts = dict(query_timeout_ms=30000, no_pins=True)
+    log = mf.install_stubs(opts)
+
+    def fn():
+        import torch
+        import matrix_functions as M
+        from matrix_functions_types import EigenConfig
+
+        log["eigh"].clear()
+        info = dict(signature=dict(kind="eigen-solver", enhance=enh), cfg=cfg)
+        eps = symx.hp("eps")
+        symx.CTX.assume(eps.n > 0)
+        log["floor"] = eps if enh else symx.SymReal.const(0)
+        A = mf.sym_matrix("a", n)
+        At = mf.tens(A, torch.float32)
+        if cfg.get("direct"):
+            X = M._matrix_inverse_root_eigen(At, root, epsilon=eps, enhance_stability=enh)[0]
+        else:
+            X = M.matrix_inverse_root(At, root, root_inv_config=EigenConfig(enhance_stability=enh), epsilon=eps, is_diagonal=False)
+        symx.prove("one eigendecomposition", len(log["eigh"]) == 1, info)
+        rec = log["eigh"][0]
+        Aexp = A.copy()
+        if enh:
+            for i in range(n):
+                Aexp[i, i] = Aexp[i, i] + eps
+        mf.prove_all_equal("the decomposed matrix is A (A + eps I with the stability option)", rec["A"], Aexp, info)
+        L, Q = list(rec["L"]), rec["Q"]
+        args = [l if enh else l + eps for l in L]  # eigenvalues of A + eps I
+        D = []
+        for a in args:
+            base = symx.root(a, root.numerator) if root.numerator != 1 else a
+            D.append(symx.SymReal.const(1) / (base ** root.denominator))
+        Xs = np.empty((n, n), dtype=object)
+        for i in range(n):
+            for j in range(n):
+                t = symx.SymReal.const(0)
+                for k in range(n):
+                    t = t + Q[i, k] * D[k] * Q[j, k]
+                Xs[i, j] = t
+        mf.prove_all_equal("X = Q diag((lambda_i(A) + eps)^(-1/r)) Q^T  (= (A + eps I)^(-1/r))", X.a, Xs, info)
+        return "ok"
+
+    return fn, opts
+
+
+def eigen_jobs(tier):
+    jobs = []
+    k = 0
+    for n in ((2, 3) if tier == "thorough" else (2,)):
+        for root in (("2", "4", "3/2", "1", "3") if tier == "thorough" else ("2", "4", "3/2")):
+            for enh in (False, True):
+                jobs.append(dict(id=f"g{k}", module="checks.c10", factory="make_eigen", cfg=dict(n=n, root=root, enhance=enh, direct=bool(k % 2))))
+                k += 1
+    if tier == "quick":
+        jobs.append(dict(id=f"g{k}", module="checks.c10", factory="make_eigen", cfg=dict(n=3, root="2", enhance=True, direct=False)))
+    return jobs
+
+
 def run(tier, seed, argv):
     from vlib import par
     from vlib.report import Report
@@ -247,6 +312,9 @@ def run(tier, seed, argv):
                        "exact real arithmetic; norms are atoms that record their arguments; eigh/qr are environment stubs",
                        "that the scaled start lies in the convergence region of the principal root is the cited theorem (Guo-Higham / Lakic); what is proved is that the code scales by the norm / trace of A + epsilon*I"]
     rep.absorb("solvers", par.run_jobs(jobs, chunk=8))
+    ej = eigen_jobs(tier)
+    rep.bounds["eigen_solver"] = f"{len(ej)} configurations: n<=3, roots 2, 4, 3/2 (thorough: 1, 3), stability option off/on, PSD spectrum symbolic"
+    rep.absorb("eigen-solver", par.run_jobs(ej, chunk=8))
     tw = par.run_jobs([dict(id="twin0", module="checks.c10", factory="make_newton", cfg=dict(n=2, root=2, max_iterations=1, twin="wrong-invariant"))])
     rep.twin_expected = 1
     rep.twin_sat = int(any(x["status"] == "violation" for r in tw.values() for x in r["records"]))
@@ -291,7 +359,29 @@ def replay(record):
     base = torch.tensor([[val(f"a_{min(i, j)}_{max(i, j)}") for j in range(n)] for i in range(n)], dtype=torch.float64)
     cands = [base @ base.T, base @ base.T * 1e-3, torch.diag(torch.tensor([1.0] + [0.0] * (n - 1), dtype=torch.float64)), torch.zeros(n, n, dtype=torch.float64)]
     epss = [eps, 1.5, 1e-2]
-    if kind == "coupled-newton":
+    if kind == "eigen-solver":
+        root = Fraction(cfg["root"])
+        enh = cfg["enhance"]
+        g = torch.Generator().manual_seed(3)
+        for s_ in (1.0, 1e-3, 1e-6):  # PSD matrices across scales, rank-deficient included
+            B = torch.randn(n, n, dtype=torch.float64, generator=g)
+            cands += [B @ B.T * s_, (B[:, :1] @ B[:, :1].T) * s_]
+        for A, e in itertools.product(cands, epss + [1e-6]):
+            for dt, rtol in ((torch.float64, 1e-8), (torch.float32, 2e-3)):
+                X = M.matrix_inverse_root(A.to(dt), root, root_inv_config=EigenConfig(enhance_stability=enh), epsilon=e)
+                lam, Q = torch.linalg.eigh(A + e * torch.eye(n, dtype=torch.float64))
+                ref = Q @ torch.diag(lam.clamp(min=e) ** (-1.0 / float(root))) @ Q.T
+                # relative to the result's scale; float32 additionally loses cond * 1e-7
+                cond = (lam.max().item() + e) / e
+                tol = rtol * max(1.0, cond * (1e-7 if dt is torch.float32 else 1e-15) / rtol) * ref.abs().max().item()
+                if cond * (1e-7 if dt is torch.float32 else 1e-15) > 1e-2:
+                    continue
+                if not torch.isfinite(X).all() or (X.to(torch.float64) - ref).abs().max().item() > tol:
+                    probs.append(f"eigen solver (enhance_stability={enh}, {dt}) differs from (A+eps I)^(-1/{root}) for A={A.tolist()} eps={e}: max err {(X.to(torch.float64) - ref).abs().max().item():.3e} vs scale {ref.abs().max().item():.3e}")
+                    break
+            if probs:
+                break
+    elif kind == "coupled-newton":
         p = cfg["root"]
         for A, e in itertools.product(cands, epss):
             X, Mm, flag, it, err = M._matrix_inverse_root_newton(A, p, epsilon=e, max_iterations=200, tolerance=1e-10)
